@@ -6,7 +6,6 @@ import (
 	"google.golang.org/grpc/credentials"
 	"sort"
 	"strings"
-	"sync" // nosim
 	"time"
 
 	"google.golang.org/grpc"
@@ -40,7 +39,7 @@ type grpcAnswer struct {
 
 type grpcTarget struct {
 	server.UnimplementedTargetServiceServer
-	mu     sync.Mutex // nosim
+	mu     simrt.HMutex
 	t0     time.Time
 	calls  []grpcCall
 	Script func(n int, c *grpcCall) grpcAnswer
